@@ -1022,23 +1022,432 @@ Proof.
       apply Hf in Hfo. lia.
 Qed.
 
+(** * get_cycles: completeness *)
+
+(** Rotations form an equivalence. *)
+Lemma skipn_app_exact {A} (l1 l2 : list A) : skipn (length l1) (l1 ++ l2) = l2.
+Proof. induction l1; simpl; auto. Qed.
+Lemma firstn_app_exact {A} (l1 l2 : list A) : firstn (length l1) (l1 ++ l2) = l1.
+Proof. induction l1; simpl; auto. f_equal. auto. Qed.
+
+Lemma same_dcycle_split a b : same_dcycle a b <-> exists l1 l2, a = l1 ++ l2 /\ b = l2 ++ l1.
+Proof.
+  split.
+  - intros [k E]. exists (firstn k a), (skipn k a). split; [symmetry; apply firstn_skipn | exact E].
+  - intros [l1 [l2 [E1 E2]]]. exists (length l1). subst. unfold rot.
+    rewrite skipn_app_exact, firstn_app_exact. reflexivity.
+Qed.
+
+Lemma same_dcycle_refl a : same_dcycle a a.
+Proof. exists 0. unfold rot. simpl. rewrite app_nil_r. reflexivity. Qed.
+
+Lemma same_dcycle_sym a b : same_dcycle a b -> same_dcycle b a.
+Proof.
+  intros H. apply same_dcycle_split in H. destruct H as [l1 [l2 [E1 E2]]].
+  apply same_dcycle_split. exists l2, l1. auto.
+Qed.
+
+Lemma same_dcycle_trans a b c : same_dcycle a b -> same_dcycle b c -> same_dcycle a c.
+Proof.
+  intros H1 H2. apply same_dcycle_split in H1, H2.
+  destruct H1 as [l1 [l2 [E1 E2]]]. destruct H2 as [m1 [m2 [F1 F2]]]. subst a b c.
+  apply app_eq_app in F1. destruct F1 as [l [[A B]|[A B]]]; subst; apply same_dcycle_split.
+  - exists (l1 ++ m1), l. rewrite <- !app_assoc. auto.
+  - exists l, (m2 ++ l2). rewrite <- !app_assoc. auto.
+Qed.
+
+(** Scan: nothing that should be recorded or pushed is missed. *)
+Lemma gc_scan_complete directed prev path : forall nbrs v,
+  In v nbrs -> negb directed && is_prev prev v = false ->
+  let r := gc_scan directed prev path nbrs in
+  (In v path -> In (skipn (index_of v path) path) (fst r)) /\ (~ In v path -> In v (snd r)).
+Proof.
+  induction nbrs as [|x t IH]; intros v Hv Hskip; [destruct Hv|].
+  cbn [gc_scan]. cbv zeta. destruct Hv as [Hv|Hv].
+  - subst x. rewrite Hskip. destruct (memn v path) eqn:Em.
+    + cbn [fst snd]. split; [left; reflexivity|]. intros Hn. exfalso. apply Hn. apply memn_In. exact Em.
+    + cbn [fst snd]. split; [|left; reflexivity]. intros Hin. apply memn_In in Hin. congruence.
+  - specialize (IH v Hv Hskip). cbv zeta in IH. destruct IH as [I1 I2].
+    destruct (negb directed && is_prev prev x); [split; auto|].
+    destruct (memn x path); cbn [fst snd]; split; auto.
+    + intros Hin. right. auto.
+    + intros Hn. right. auto.
+Qed.
+
+Lemma concat_opt_incl {A} (l : list (option (list A))) r :
+  concat_opt l = Some r -> forall o, In o l -> exists a, o = Some a /\ forall c, In c a -> In c r.
+Proof.
+  revert r; induction l as [|o t IH]; intros r H o' Ho; [destruct Ho|]. simpl in H.
+  destruct o as [a|]; [|discriminate]. destruct (concat_opt t) as [b|] eqn:E; [|discriminate].
+  inversion H; subst r. destruct Ho as [Ho|Ho].
+  - subst o'. exists a. split; auto. intros c Hc. apply in_or_app. left. exact Hc.
+  - destruct (IH b eq_refl o' Ho) as [a' [E' Hs]]. exists a'. split; auto.
+    intros c Hc. apply in_or_app. right. apply Hs. exact Hc.
+Qed.
+
+Lemma prev_of_some path p : prev_of path = Some p -> exists q0 z, path = q0 ++ [p; z].
+Proof.
+  unfold prev_of. intros H. destruct (rev path) as [|z [|p' r]] eqn:E; try discriminate.
+  inversion H; subst p'. exists (rev r), z.
+  rewrite <- (rev_involutive path), E. simpl. rewrite <- app_assoc. reflexivity.
+Qed.
+
+Lemma prev_of_In path p : prev_of path = Some p -> In p path.
+Proof.
+  intros H. destruct (prev_of_some path p H) as [q0 [z E]]. subst. apply in_or_app. right. left. reflexivity.
+Qed.
+
+Lemma is_prev_notin path v : ~ In v path -> is_prev (prev_of path) v = false.
+Proof.
+  intros H. unfold is_prev. destruct (prev_of path) as [p|] eqn:E; auto.
+  apply Nat.eqb_neq. intros E'. subst. apply H. eapply prev_of_In; eauto.
+Qed.
+
+(** The traversal reaches every simple extension of its path and records every back edge there. *)
+Lemma visit_complete g directed : forall d path cur cs,
+  gc_visit d g directed cur path = Some cs ->
+  forall ext w,
+    chain (edge g) (cur :: ext) -> NoDup (path ++ ext) ->
+    In w (row g (last (cur :: ext) 0)) -> In w (path ++ ext) ->
+    (directed = false -> is_prev (prev_of (path ++ ext)) w = false) ->
+    In (skipn (index_of w (path ++ ext)) (path ++ ext)) cs.
+Proof.
+  induction d as [|d IH]; intros path cur cs H ext w Hch Hnd Hw Hin Hprev; [discriminate|].
+  cbn [gc_visit] in H. cbv zeta in H.
+  destruct (concat_opt _) as [sub|] eqn:Esub; [|discriminate]. inversion H; subst cs. clear H.
+  destruct ext as [|v ext'].
+  - rewrite app_nil_r in *. cbn [last] in Hw. apply in_or_app. left.
+    apply (gc_scan_complete directed (prev_of path) path (row g cur) w Hw); auto.
+    destruct directed; simpl; auto.
+  - apply chain_cons in Hch. destruct Hch as [Hcv Hch']. specialize (Hcv ltac:(discriminate)). cbn [hd] in Hcv.
+    assert (Hvp : ~ In v path).
+    { intros Hvin. eapply (NoDup_app_disjoint path (v :: ext') v); eauto. left. reflexivity. }
+    assert (Hskip : negb directed && is_prev (prev_of path) v = false).
+    { rewrite is_prev_notin by exact Hvp. apply andb_false_r. }
+    destruct (gc_scan_complete directed (prev_of path) path (row g cur) v Hcv Hskip) as [_ Hpush].
+    specialize (Hpush Hvp).
+    assert (Hmem : In (gc_visit d g directed v (path ++ [v]))
+                      (map (fun v0 => gc_visit d g directed v0 (path ++ [v0]))
+                           (rev (snd (gc_scan directed (prev_of path) path (row g cur)))))).
+    { apply in_map_iff. exists v. split; auto. apply in_rev. rewrite rev_involutive. exact Hpush. }
+    destruct (concat_opt_incl _ _ Esub _ Hmem) as [a [Ea Hsub]].
+    apply in_or_app. right. apply Hsub.
+    assert (Eq : path ++ v :: ext' = (path ++ [v]) ++ ext') by (rewrite <- app_assoc; reflexivity).
+    rewrite Eq in *. eapply IH; eauto.
+Qed.
+
+Lemma split_first_in (c l : list nat) :
+  (exists x, In x l /\ In x c) ->
+  exists pre w suf, l = pre ++ w :: suf /\ In w c /\ forall y, In y pre -> ~ In y c.
+Proof.
+  induction l as [|a t IH]; intros [x [Hx Hc]]; [destruct Hx|].
+  destruct (in_dec Nat.eq_dec a c) as [Ha|Ha].
+  - exists [], a, t. split; [reflexivity|]. split; [exact Ha|]. intros y Hy. destruct Hy.
+  - destruct Hx as [Hx|Hx]; [subst; contradiction|].
+    destruct (IH (ex_intro _ x (conj Hx Hc))) as [pre [w [suf [E [Hw Hpre]]]]].
+    exists (a :: pre), w, suf. split; [simpl; f_equal; exact E|]. split; auto.
+    intros y [Hy|Hy]; [subst; exact Ha | apply Hpre; exact Hy].
+Qed.
+
+Lemma skipn_index_of_app (pre : list nat) w r :
+  ~ In w pre -> skipn (index_of w (pre ++ w :: r)) (pre ++ w :: r) = w :: r.
+Proof.
+  induction pre as [|a t IH]; intros H; simpl.
+  - rewrite Nat.eqb_refl. reflexivity.
+  - destruct (Nat.eqb_spec w a) as [E|E]; [exfalso; apply H; left; auto|]. apply IH. intros Hin. apply H. right. exact Hin.
+Qed.
+
+Lemma NoDup_split_unique (a b a' b' : list nat) x :
+  NoDup (a ++ x :: b) -> a ++ x :: b = a' ++ x :: b' -> a = a' /\ b = b'.
+Proof.
+  revert a'. induction a as [|y t IH]; intros a' Hnd E.
+  - destruct a' as [|y' t']; simpl in E.
+    + inversion E. auto.
+    + injection E as E1 E2. subst y'. exfalso. simpl in Hnd. apply NoDup_cons_iff in Hnd. destruct Hnd as [Hx _].
+      apply Hx. rewrite E2. apply in_or_app. right. left. reflexivity.
+  - destruct a' as [|y' t']; simpl in E.
+    + injection E as E1 E2. subst y. exfalso. simpl in Hnd. apply NoDup_cons_iff in Hnd. destruct Hnd as [Hx _].
+      apply Hx. apply in_or_app. right. left. reflexivity.
+    + injection E as E1 E2. subst y'. simpl in Hnd. apply NoDup_cons_iff in Hnd. destruct Hnd as [_ Hnd].
+      destruct (IH t' Hnd E2) as [A B]. subst. auto.
+Qed.
+
+(** Every simple cycle reachable from the start node is recorded, up to rotation. *)
+Lemma found_complete g directed s c cs :
+  wf_graph g ->
+  gc_visit (S (length g)) g directed s [s] = Some cs ->
+  simple_cycle (edge g) c -> (directed = false -> length c <> 2) ->
+  reach (edge g) s (hd 0 c) ->
+  exists c', In c' cs /\ same_dcycle c c'.
+Proof.
+  intros Hwf Hrun Hcy Hlen2 Hreach.
+  destruct (reach_spath _ _ _ Hreach) as [p [P1 [P2 [P3 [P4 P5]]]]].
+  pose proof Hcy as [Hne [Hnd Hch]].
+  assert (Hhd : In (hd 0 c) c) by (destruct c; [congruence | left; reflexivity]).
+  destruct (split_first_in c p) as [pre [w [suf [Ep [Hw Hpre]]]]].
+  { exists (hd 0 c). split; auto. rewrite <- P2. apply last_In. exact P3. }
+  destruct (in_split w c Hw) as [c1 [c2 Ec]].
+  set (cw := w :: c2 ++ c1).
+  assert (Hrot : cw = rot (length c1) c).
+  { unfold rot, cw. rewrite Ec, skipn_app_exact, firstn_app_exact. reflexivity. }
+  assert (Hcw : simple_cycle (edge g) cw) by (rewrite Hrot; apply simple_cycle_rot; exact Hcy).
+  assert (Hperm : Permutation cw c) by (rewrite Hrot; apply rot_perm).
+  destruct Hcw as [_ [Hndw Hchw]]. apply chain_app in Hchw. destruct Hchw as [Hchw [_ Hclose]].
+  specialize (Hclose ltac:(discriminate) ltac:(discriminate)). cbn [hd] in Hclose.
+  set (q := pre ++ cw).
+  assert (Hq : exists ext, q = [s] ++ ext).
+  { unfold q. destruct pre as [|a pre'].
+    - simpl in Ep. subst p. simpl in P1. subst w. exists (c2 ++ c1). reflexivity.
+    - subst p. simpl in P1. subst a. exists (pre' ++ cw). reflexivity. }
+  destruct Hq as [ext Eq].
+  assert (Hchq : chain (edge g) q).
+  { unfold q. apply chain_app. rewrite Ep in P5. apply chain_app in P5. destruct P5 as [C1 [C2 C3]].
+    split; auto. split; auto. intros A _. cbn [hd]. specialize (C3 A ltac:(discriminate)). exact C3. }
+  assert (Hndq : NoDup q).
+  { unfold q. apply NoDup_app_intro; auto.
+    - rewrite Ep in P4. apply NoDup_remove_1 in P4. 
+      assert (NoDup (pre ++ suf) -> NoDup pre) as F.
+      { clear. induction pre; simpl; [constructor|]. intros H. inversion H; subst. constructor; auto.
+        intros Hin. apply H2. apply in_or_app. left. exact Hin. }
+      apply F. exact P4.
+    - intros x Hx Hxc. apply (Hpre x Hx). eapply Permutation_in; eauto. }
+  assert (Hlastq : last q 0 = last cw 0) by (unfold q, cw; apply last_app_cons).
+  assert (Hwq : In w q) by (unfold q, cw; apply in_or_app; right; left; reflexivity).
+  assert (Hprevq : directed = false -> is_prev (prev_of q) w = false).
+  { intros Hd. unfold is_prev. destruct (prev_of q) as [p'|] eqn:Epv; auto.
+    apply Nat.eqb_neq. intros E. subst p'.
+    destruct (prev_of_some q w Epv) as [q0 [z Eq0]].
+    assert (Hsp : pre = q0 /\ c2 ++ c1 = [z]).
+    { apply (NoDup_split_unique pre (c2 ++ c1) q0 [z] w); [exact Hndq | unfold q, cw in Eq0; exact Eq0]. }
+    destruct Hsp as [_ E2]. apply (Hlen2 Hd).
+    rewrite <- (Permutation_length Hperm). unfold cw. simpl. rewrite E2. reflexivity. }
+  rewrite Eq in Hchq, Hndq, Hlastq, Hwq, Hprevq.
+  assert (Hchs : chain (edge g) (s :: ext)) by exact Hchq.
+  assert (Hwrow : In w (row g (last (s :: ext) 0))).
+  { change (s :: ext) with ([s] ++ ext). rewrite Hlastq. exact Hclose. }
+  pose proof (visit_complete g directed (S (length g)) [s] s cs Hrun ext w Hchs Hndq Hwrow Hwq Hprevq) as Hfound.
+  rewrite <- Eq in Hfound. unfold q, cw in Hfound. rewrite skipn_index_of_app in Hfound.
+  - exists cw. split; [exact Hfound|]. exists (length c1). exact Hrot.
+  - intros Hin. apply (Hpre w Hin). exact Hw.
+Qed.
+
+(** De-duplication loses no key. *)
+Lemma dedup_complete directed : forall cycles visited c,
+  In c cycles ->
+  In (cycle_key directed c) visited \/
+  exists x, In x (dedup directed cycles visited) /\ okey directed x = cycle_key directed c.
+Proof.
+  induction cycles as [|c0 rest IH]; intros visited c Hc; [destruct Hc|].
+  assert (Ekey : forall y, cycle_key directed y = okey directed (roll_min y)) by (destruct directed; reflexivity).
+  simpl. destruct (existsb (list_eqb (cycle_key directed c0)) visited) eqn:Ex.
+  - destruct Hc as [Hc|Hc].
+    + subst c0. left. apply existsb_exists in Ex. destruct Ex as [k [Hk E]]. apply list_eqb_eq in E. subst. exact Hk.
+    + apply IH. exact Hc.
+  - destruct Hc as [Hc|Hc].
+    + subst c0. right. exists (roll_min c). split; [left; reflexivity|]. symmetry. apply Ekey.
+    + destruct (IH (cycle_key directed c0 :: visited) c Hc) as [[Hv|Hv]|[x [Hx Ex']]].
+      * right. exists (roll_min c0). split; [left; reflexivity|]. rewrite <- Ekey. exact Hv.
+      * left. exact Hv.
+      * right. exists x. split; [right; exact Hx | exact Ex'].
+Qed.
+
+Lemma dedup_nonempty directed c rest : dedup directed (c :: rest) [] <> [].
+Proof. simpl. discriminate. Qed.
+
+Lemma count_cons a t x : count (a :: t) x = (if x =? a then 1 else 0) + count t x.
+Proof. unfold count. simpl. destruct (x =? a); reflexivity. Qed.
+
+Lemma count_pos l x : In x l -> 0 < count l x.
+Proof.
+  induction l as [|a t IH]; [intros []|]. intros [H|H]; rewrite count_cons.
+  - subst. rewrite Nat.eqb_refl. lia.
+  - specialize (IH H). lia.
+Qed.
+
+Lemma count_two : forall (l : list nat) i j, i < j -> j < length l -> nthn l i = nthn l j ->
+  1 < count l (nthn l i).
+Proof.
+  induction l as [|a t IH]; intros i j Hij Hj E; [simpl in Hj; lia|].
+  rewrite count_cons. destruct j as [|j']; [lia|]. destruct i as [|i'].
+  - unfold nthn in *. simpl in *. rewrite Nat.eqb_refl.
+    assert (In a t) by (rewrite E; apply nth_In; lia). pose proof (count_pos t a H). lia.
+  - unfold nthn in *. simpl in *. assert (H := IH i' j' ltac:(lia) ltac:(lia) E). unfold nthn in H. lia.
+Qed.
+
+Lemma hd_In_nonempty (l : list nat) : l <> [] -> In (hd 0 l) l.
+Proof. destruct l; [congruence | left; reflexivity]. Qed.
+
+Lemma first_with_label_spec comp l : In l comp ->
+  first_with_label comp l < length comp /\ nthn comp (first_with_label comp l) = l.
+Proof.
+  intros H. apply In_nthn in H. destruct H as [i [Hi Ei]]. unfold first_with_label.
+  set (fl := filter (fun u => nthn comp u =? l) (seq 0 (length comp))).
+  assert (Hne : fl <> []).
+  { intros E. assert (Hin : In i fl) by (apply filter_In; split; [apply in_seq; lia | apply Nat.eqb_eq; exact Ei]).
+    rewrite E in Hin. destruct Hin. }
+  pose proof (hd_In_nonempty fl Hne) as Hh. apply filter_In in Hh. destruct Hh as [H1 H2].
+  apply in_seq in H1. apply Nat.eqb_eq in H2. split; [lia | exact H2].
+Qed.
+
+Lemma long_cycle_same_label g comp x y t :
+  wf_graph g -> components_contract g true comp -> dcycle g (x :: y :: t) ->
+  x < length g /\ y < length g /\ x <> y /\ nthn comp x = nthn comp y.
+Proof.
+  intros Hwf [Hlen Hc] Hcy. pose proof Hcy as [Hne [Hnd Hch]].
+  assert (Hxy : In y (row g x)) by (simpl in Hch; tauto).
+  assert (Hx : x < length g) by (eapply row_nonempty_lt; eauto).
+  assert (Hy : y < length g) by (eapply Hwf; eauto).
+  destruct (simple_cycle_hd_reach (edge g) (x :: y :: t) y Hcy (or_intror (or_introl eq_refl))) as [R1 R2].
+  cbn [hd] in R1, R2. split; auto. split; auto. split.
+  - intros E. subst y. inversion Hnd as [|? ? Hni _]. apply Hni. left. reflexivity.
+  - apply Hc; auto. split; assumption.
+Qed.
+
+Lemma loops_In g u : In u (row g u) ->
+  In [u] (map (fun u => [u]) (filter (fun u => edgeb g u u) (nodes g))).
+Proof.
+  intros H. apply in_map_iff. exists u. split; auto. apply filter_In. split.
+  - apply nodes_In. eapply row_nonempty_lt; eauto.
+  - apply edgeb_true. exact H.
+Qed.
+
+Lemma dedup_keeps_directed (cycles : list (list nat)) c c0 :
+  In c0 cycles -> same_dcycle c c0 -> exists c', In c' (dedup true cycles []) /\ same_dcycle c c'.
+Proof.
+  intros Hin Hs. destruct (dedup_complete true cycles [] c0 Hin) as [[]|[x [Hx Ex]]].
+  cbn [okey cycle_key] in Ex. subst x. exists (roll_min c0). split; auto.
+  eapply same_dcycle_trans; [exact Hs|]. exists (index_of (list_min c0) c0). reflexivity.
+Qed.
+
+Theorem get_cycles_complete_directed_lemma (g : graph) (directed : option bool) (comp : list nat) cs :
+  wf_graph g -> components_contract g true comp -> resolve_directed g directed = Ok true ->
+  get_cycles g directed comp = Ok cs ->
+  forall c, dcycle g c -> exists c', In c' cs /\ same_dcycle c c'.
+Proof.
+  intros Hwf Hcon Hd. pose proof Hcon as [Hlen Hc]. unfold get_cycles. rewrite Hd. cbn [andb negb].
+  set (loops := map (fun u => [u]) (filter (fun u => edgeb g u u) (nodes g))).
+  destruct (n_labels comp =? length g) eqn:Enl.
+  - intros H; inversion H; subst cs. clear H. intros c Hcy. pose proof Hcy as [Hne [Hnd Hch]].
+    destruct c as [|x [|y t]]; [congruence| |].
+    + exists [x]. split; [|apply same_dcycle_refl]. apply loops_In. simpl in Hch. tauto.
+    + exfalso. destruct (long_cycle_same_label g comp x y t Hwf Hcon Hcy) as [Hx [Hy [Hxy El]]].
+      apply Nat.eqb_eq in Enl. rewrite <- Hlen in Enl. apply n_labels_full in Enl.
+      apply Hxy. apply (proj1 (NoDup_nthn comp) Enl); auto; lia.
+  - destruct (concat_opt _) as [found|] eqn:Ef; [|discriminate].
+    intros H; inversion H; subst cs. clear H. intros c Hcy. pose proof Hcy as [Hne [Hnd Hch]].
+    destruct c as [|x [|y t]]; [congruence| |].
+    + apply (dedup_keeps_directed _ [x] [x]); [|apply same_dcycle_refl].
+      apply in_or_app. left. apply loops_In. simpl in Hch. tauto.
+    + destruct (long_cycle_same_label g comp x y t Hwf Hcon Hcy) as [Hx [Hy [Hxy El]]].
+      set (l := nthn comp x).
+      assert (Hcnt : 1 < count comp l).
+      { destruct (Nat.lt_total x y) as [Hlt|[E|Hgt]]; [|congruence|].
+        - apply (count_two comp x y); auto; lia.
+        - unfold l. rewrite El. apply (count_two comp y x); auto; lia. }
+      assert (Hl : In l comp) by (apply nthn_In; lia).
+      destruct (first_with_label_spec comp l Hl) as [Hs1 Hs2]. set (s := first_with_label comp l) in *.
+      assert (Hreach : reach (edge g) s x).
+      { assert (Hsx : sconn g s x) by (apply Hc; try lia; exact Hs2). destruct Hsx; assumption. }
+      assert (Hmem : In (gc_visit (S (length g)) g true s [s])
+                (map (fun s => gc_visit (S (length g)) g true s [s])
+                     (map (first_with_label comp) (filter (fun l => 1 <? count comp l) (np_unique comp))))).
+      { apply in_map_iff. exists s. split; auto. apply in_map_iff. exists l. split; auto.
+        apply filter_In. split; [apply np_unique_In; exact Hl | apply Nat.ltb_lt; exact Hcnt]. }
+      destruct (concat_opt_incl _ _ Ef _ Hmem) as [a [Ea Hsub]].
+      destruct (found_complete g true s (x :: y :: t) a Hwf Ea Hcy ltac:(discriminate) Hreach) as [c' [Hc' Hsame]].
+      apply (dedup_keeps_directed _ _ c'); auto. apply in_or_app. right. apply Hsub. exact Hc'.
+Qed.
+
+(** Nothing is returned exactly for acyclic graphs (self-loops count as cycles; undirected graphs are
+    taken with canonical rows, i.e. without repeated column indices). *)
+Theorem get_cycles_empty_iff_acyclic_lemma (g : graph) (directed : option bool) (comp : list nat) (d : bool) cs :
+  wf_graph g -> (forall u, NoDup (row g u)) -> resolve_directed g directed = Ok d ->
+  components_contract g d comp ->
+  get_cycles g directed comp = Ok cs ->
+  (cs = [] <-> ~ has_cycle g d).
+Proof.
+  intros Hwf Hnd Hd Hcon Hrun.
+  assert (Hsound : cs <> [] -> has_cycle g d).
+  { intros Hne. destruct cs as [|c0 rest]; [congruence|].
+    destruct (get_cycles_sound_lemma g directed comp d (c0 :: rest) Hwf Hd Hrun) as [Hall _].
+    destruct (Hall c0 (or_introl eq_refl)) as [H1 [H2 _]]. exists c0. destruct d; [exact H1|].
+    split; auto. }
+  split.
+  2:{ intros Hno. destruct cs as [|c0 rest]; auto. exfalso. apply Hno. apply Hsound. discriminate. }
+  intros Ecs [c Hcy]. subst cs. destruct d.
+  - destruct (get_cycles_complete_directed_lemma g directed comp [] Hwf Hcon Hd Hrun c Hcy) as [c' [[] _]].
+  - destruct Hcy as [Hcy Hl2]. pose proof Hcy as [Hne [Hndc Hch]].
+    pose proof (resolve_directed_false g directed Hd) as Hsym0.
+    pose proof (proj1 (is_symmetric_spec g) Hsym0) as Hsym.
+    unfold get_cycles in Hrun. rewrite Hd in Hrun. cbn [andb negb] in Hrun.
+    set (loops := map (fun u => [u]) (filter (fun u => edgeb g u u) (nodes g))) in *.
+    destruct (has_loops g) eqn:Hl.
+    + apply has_loops_spec in Hl. destruct Hl as [u [Hu Huu]].
+      assert (Hlo : In [u] loops) by (apply loops_In; exact Huu).
+      destruct (count_criterion g comp).
+      * inversion Hrun as [E]. rewrite E in Hlo. destruct Hlo.
+      * destruct (concat_opt _) as [found|]; [|discriminate]. inversion Hrun as [E].
+        destruct loops as [|l0 lr]; [destruct Hlo|]. simpl in E. discriminate.
+    + assert (Hcrit : count_criterion g comp = false).
+      { assert (Hacy : is_acyclic g directed comp = Ok (count_criterion g comp)).
+        { unfold is_acyclic. rewrite Hd, Hl. reflexivity. }
+        pose proof (is_acyclic_undirected_lemma g directed comp _ Hwf Hnd Hcon Hd Hacy) as Hiff.
+        destruct (count_criterion g comp); auto. exfalso. apply (proj1 Hiff eq_refl).
+        exists c. split; auto. }
+      rewrite Hcrit in Hrun. destruct (concat_opt _) as [found|] eqn:Ef; [|discriminate].
+      inversion Hrun as [E]. clear Hrun.
+      destruct Hcon as [Hlen Hc].
+      assert (Hx : hd 0 c < length g).
+      { destruct c as [|x t]; [congruence|]. cbn [hd]. apply chain_app in Hch. destruct Hch as [_ [_ Hcl]].
+        specialize (Hcl ltac:(discriminate) ltac:(discriminate)). cbn [hd] in Hcl.
+        eapply Hwf. exact Hcl. }
+      set (x := hd 0 c) in *. set (l := nthn comp x).
+      assert (Hlin : In l comp) by (apply nthn_In; lia).
+      destruct (first_with_label_spec comp l Hlin) as [Hs1 Hs2]. set (s := first_with_label comp l) in *.
+      assert (Hreach : reach (edge g) s x).
+      { assert (Hw : wconn g s x) by (apply Hc; try lia; exact Hs2).
+        eapply reach_mono; [|exact Hw]. intros a b [Hab|Hab]; [exact Hab | apply Hsym; exact Hab]. }
+      assert (Hmem : In (gc_visit (S (length g)) g false s [s])
+                (map (fun s => gc_visit (S (length g)) g false s [s]) (map (first_with_label comp) (np_unique comp)))).
+      { apply in_map_iff. exists s. split; auto. apply in_map_iff. exists l. split; auto.
+        apply np_unique_In. exact Hlin. }
+      destruct (concat_opt_incl _ _ Ef _ Hmem) as [a [Ea Hsub]].
+      destruct (found_complete g false s c a Hwf Ea Hcy (fun _ => Hl2) Hreach) as [c' [Hc' _]].
+      apply Hsub in Hc'. destruct (loops ++ found) as [|z zs] eqn:Ez.
+      * apply app_eq_nil in Ez. destruct Ez as [_ Ez]. subst found. destruct Hc'.
+      * simpl in E. discriminate.
+Qed.
+
 (** * break_cycles: BOUNDED theorems (exhaustive evaluation, n <= 4) and the refutation *)
 
 Definition out_degree (g : graph) (root : list nat) : nat := sumn (map (fun r => length (row g r)) root).
 
-(** The model run with the canonical oracle answers (labels = smallest node of the class). *)
-Definition bc_run (directed : option bool) (d : bool) (g : graph) (root : list nat) : result graph :=
-  break_cycles g root directed (canon_labels g d) (canon_labels (drop_loops g) d).
-Definition bc_check (directed : option bool) (d : bool) (g : graph) (root : list nat) : bool :=
-  match bc_run directed d g root with
+(** The model run with the canonical oracle answers (labels = smallest node of the class).
+    [vo]: does the undirected branch visit the components without root (false = code as it stands). *)
+Definition bc_run (vo : bool) (directed : option bool) (d : bool) (g : graph) (root : list nat) : result graph :=
+  break_cycles vo g root directed (canon_labels g d) (canon_labels (drop_loops g) d).
+Definition bc_check (vo : bool) (directed : option bool) (d : bool) (g : graph) (root : list nat) : bool :=
+  match bc_run vo directed d g root with
   | Ok h => bc_post g root d h
   | Err _ => false
   end.
 
+(** The directed branch does not depend on [vo]. *)
+Lemma break_cycles_vo_directed vo g root directed c1 c2 :
+  resolve_directed g directed = Ok true ->
+  break_cycles vo g root directed c1 c2 = break_cycles false g root directed c1 c2.
+Proof.
+  intros H. unfold break_cycles. destruct (is_acyclic g directed c1) as [[|]|]; auto.
+  destruct (negb (forallb (fun r => r <? length g) root)); auto.
+  destruct (sumn (map (fun r => length (row g r)) root) =? 0); auto.
+  rewrite H. reflexivity.
+Qed.
+
 (** Directed branch: explicit directed=True on every digraph, inferred flag on the non-symmetric ones. *)
 Definition dir_check (g : graph) : bool :=
   forallb (fun root => negb (0 <? out_degree g root) ||
-                       (bc_check (Some true) true g root && (is_symmetric g || bc_check None true g root)))
+                       (bc_check false (Some true) true g root &&
+                        (is_symmetric g || bc_check false None true g root)))
           (nonempty_sublists (nodes g)).
 Definition small_digraphs : list graph :=
   all_digraphs 0 true ++ all_digraphs 1 true ++ all_digraphs 2 true ++ all_digraphs 3 true ++ all_digraphs 4 false.
@@ -1046,65 +1455,79 @@ Definition small_digraphs : list graph :=
 Lemma dir_check_small : forallb dir_check small_digraphs = true.
 Proof. vm_cast_no_check (eq_refl true). Qed.
 
-Theorem break_cycles_ok_upto_4_lemma (g : graph) (root : list nat) (directed : option bool) :
+Theorem break_cycles_ok_upto_4_lemma (vo : bool) (g : graph) (root : list nat) (directed : option bool) :
   In g small_digraphs -> In root (nonempty_sublists (nodes g)) -> 0 < out_degree g root ->
   directed = Some true \/ (directed = None /\ is_symmetric g = false) ->
-  exists h, bc_run directed true g root = Ok h /\ bc_post g root true h = true.
+  exists h, bc_run vo directed true g root = Ok h /\ bc_post g root true h = true.
 Proof.
   intros Hg Hr Hd Hflag.
+  assert (Hres : resolve_directed g directed = Ok true).
+  { destruct Hflag as [E|[E Hs]]; subst directed; simpl; [reflexivity | rewrite Hs; reflexivity]. }
+  unfold bc_run. rewrite (break_cycles_vo_directed vo g root directed _ _ Hres).
   pose proof (proj1 (forallb_forall dir_check small_digraphs) dir_check_small g Hg) as H.
   unfold dir_check in H. rewrite forallb_forall in H. specialize (H root Hr).
   apply Nat.ltb_lt in Hd. rewrite Hd in H. cbn [negb orb] in H.
   apply andb_true_iff in H. destruct H as [H1 H2].
   destruct Hflag as [E|[E Hs]]; subst directed.
-  - unfold bc_check in H1. destruct (bc_run (Some true) true g root) as [h|e]; [|discriminate].
-    exists h. auto.
-  - rewrite Hs in H2. cbn [orb] in H2. unfold bc_check in H2.
-    destruct (bc_run None true g root) as [h|e]; [|discriminate]. exists h. auto.
+  - unfold bc_check, bc_run in H1.
+    destruct (break_cycles false g root (Some true) (canon_labels g true) (canon_labels (drop_loops g) true)) as [h|e];
+      [|discriminate]. exists h. auto.
+  - rewrite Hs in H2. cbn [orb] in H2. unfold bc_check, bc_run in H2.
+    destruct (break_cycles false g root None (canon_labels g true) (canon_labels (drop_loops g) true)) as [h|e];
+      [|discriminate]. exists h. auto.
 Qed.
 
-(** Undirected branch. The positive statement needs the hypothesis that every node lying on a cycle
-    (of length >= 3) is reachable from the root set: cycles elsewhere are never visited. *)
+(** Undirected branch. For the code as it stands ([vo = false]) the positive statement needs the
+    hypothesis that every node lying on a cycle (of length >= 3) is reachable from the root set: cycles
+    elsewhere are never visited. With the repair ([vo = true]) no hypothesis is needed. *)
 Definition on_ucycle_b (g : graph) (u : nat) : bool :=
   existsb (fun v => negb (v =? u) && nthb (reach_from (remove_edge (remove_edge g u v) v u) [v]) u) (row g u).
 Definition cycles_covered (g : graph) (root : list nat) : bool :=
   let r := reach_from g root in forallb (fun u => implb (on_ucycle_b g u) (nthb r u)) (nodes g).
-Definition und_check (g : graph) : bool :=
-  forallb (fun root => negb (0 <? out_degree g root) || negb (cycles_covered g root) ||
-                       (bc_check None false g root && bc_check (Some false) false g root))
+Definition und_check (vo : bool) (g : graph) : bool :=
+  forallb (fun root => negb (0 <? out_degree g root) || (negb vo && negb (cycles_covered g root)) ||
+                       (bc_check vo None false g root && bc_check vo (Some false) false g root))
           (nonempty_sublists (nodes g)).
 Definition small_undirected : list graph :=
   filter is_symmetric (all_digraphs 0 true ++ all_digraphs 1 true ++ all_digraphs 2 true ++
                        all_digraphs 3 true ++ all_digraphs 4 true).
 
-Lemma und_check_small : forallb und_check small_undirected = true.
+Lemma und_check_small_current : forallb (und_check false) small_undirected = true.
+Proof. vm_cast_no_check (eq_refl true). Qed.
+Lemma und_check_small_repaired : forallb (und_check true) small_undirected = true.
 Proof. vm_cast_no_check (eq_refl true). Qed.
 
-Theorem break_cycles_undirected_ok_upto_4_lemma (g : graph) (root : list nat) (directed : option bool) :
+Theorem break_cycles_undirected_ok_upto_4_lemma (vo : bool) (g : graph) (root : list nat) (directed : option bool) :
   In g small_undirected -> In root (nonempty_sublists (nodes g)) -> 0 < out_degree g root ->
-  cycles_covered g root = true ->
+  (vo = false -> cycles_covered g root = true) ->
   directed = None \/ directed = Some false ->
-  exists h, bc_run directed false g root = Ok h /\ bc_post g root false h = true.
+  exists h, bc_run vo directed false g root = Ok h /\ bc_post g root false h = true.
 Proof.
   intros Hg Hr Hd Hcov Hflag.
-  pose proof (proj1 (forallb_forall und_check small_undirected) und_check_small g Hg) as H.
+  assert (H : und_check vo g = true).
+  { destruct vo; [exact (proj1 (forallb_forall _ _) und_check_small_repaired g Hg)
+                 | exact (proj1 (forallb_forall _ _) und_check_small_current g Hg)]. }
   unfold und_check in H. rewrite forallb_forall in H. specialize (H root Hr).
-  apply Nat.ltb_lt in Hd. rewrite Hd, Hcov in H. cbn [negb orb] in H.
+  apply Nat.ltb_lt in Hd. rewrite Hd in H. cbn [negb orb] in H.
+  assert (Hc : negb vo && negb (cycles_covered g root) = false).
+  { destruct vo; [reflexivity|]. rewrite (Hcov eq_refl). reflexivity. }
+  rewrite Hc in H. cbn [orb] in H.
   apply andb_true_iff in H. destruct H as [H1 H2].
   destruct Hflag as [E|E]; subst directed.
-  - unfold bc_check in H1. destruct (bc_run None false g root) as [h|e]; [|discriminate]. exists h. auto.
-  - unfold bc_check in H2. destruct (bc_run (Some false) false g root) as [h|e]; [|discriminate]. exists h. auto.
+  - unfold bc_check in H1. destruct (bc_run vo None false g root) as [h|e]; [|discriminate]. exists h. auto.
+  - unfold bc_check in H2. destruct (bc_run vo (Some false) false g root) as [h|e]; [|discriminate]. exists h. auto.
 Qed.
 
 (** Refutation (D22): triangle {0,2,3}, separate root 1 carrying a self-loop. The undirected branch
-    returns the triangle untouched: the result is not acyclic. The coverage hypothesis above fails. *)
+    as coded ([vo = false]) returns the triangle untouched: the result is not acyclic. The coverage
+    hypothesis above fails. *)
 Definition d22_graph : graph := [[2; 3]; [1]; [0; 3]; [0; 2]].
 
 Theorem break_cycles_undirected_refuted_lemma :
   exists g root comp h,
     wf_graph g /\ is_symmetric g = true /\ In root (nonempty_sublists (nodes g)) /\ 0 < out_degree g root /\
     components_contract_b g false comp = true /\
-    (forall comp2, break_cycles g root None comp comp2 = Ok h) /\
+    (forall comp2, break_cycles false g root None comp comp2 = Ok h) /\
     ucycle h [0; 2; 3] /\ acyclic_b h false = false /\ bc_post g root false h = false /\
     cycles_covered g root = false.
 Proof.
@@ -1119,4 +1542,171 @@ Proof.
     - repeat constructor; simpl; intuition lia.
     - simpl. unfold edge. simpl. tauto. }
   split; [reflexivity|]. split; reflexivity.
+Qed.
+
+(** * Meaning of the brute-force postcondition [bc_post] (directed case) *)
+
+(** The BFS of Model/Bfs.v ends with the invariant of BfsProofs: reached = reachable. *)
+Lemma bfs_loop_inv g src :
+  forall fuel r reach dist,
+    Inv g src r reach dist -> cf reach < fuel ->
+    exists dist' r' reach', bfs_loop fuel g (Z.of_nat (S r)) reach dist = Some dist' /\
+                            Inv g src r' reach' dist' /\
+                            existsb (fun b : bool => b) (frontier g reach') = false.
+Proof.
+  induction fuel as [|f IH]; intros r reach dist HI Hf; [lia|].
+  cbn [bfs_loop].
+  destruct (existsb (fun b : bool => b) (frontier g reach)) eqn:E.
+  - replace (Z.of_nat (S r) + 1)%Z with (Z.of_nat (S (S r))) by lia.
+    apply IH.
+    + apply inv_step. exact HI.
+    + apply existsb_exists in E. destruct E as [b [Hb Hbt]]. subst b.
+      destruct (In_nth _ _ false Hb) as [i [Hi Hn]].
+      rewrite frontier_length in Hi.
+      assert (Hfi : nthb reach i = false).
+      { apply (frontier_true g reach i Hi). exact Hn. }
+      pose proof (inv_lr _ _ _ _ _ HI) as Hlr.
+      assert (Hlt : cf (map2 orb reach (frontier g reach)) < cf reach).
+      { apply (cf_map2_lt reach (frontier g reach) i); auto. lia. }
+      lia.
+  - exists dist, r, reach. split; [reflexivity|]. split; assumption.
+Qed.
+
+Lemma one_hot_length n srcs : length (one_hot n srcs) = n.
+Proof. unfold one_hot. rewrite map_length, seq_length. reflexivity. Qed.
+
+Lemma nthb_one_hot n srcs v : v < n -> nthb (one_hot n srcs) v = memn v srcs.
+Proof. intros H. unfold nthb, one_hot. exact (nth_map_seq (fun v => memn v srcs) n v false H). Qed.
+
+Lemma reach_from_spec g srcs v : v < length g ->
+  (nthb (reach_from g srcs) v = true <-> exists k, reachk g (one_hot (length g) srcs) k v).
+Proof.
+  intros Hv. unfold reach_from. set (src := one_hot (length g) srcs).
+  assert (Hs : length src = length g) by apply one_hot_length.
+  unfold bfs. change 1%Z with (Z.of_nat (S 0)).
+  destruct (bfs_loop_inv g src (S (length g)) 0 src _ (inv_init g src Hs)) as [dist [r [rch [Hb [HI HE]]]]].
+  { pose proof (cf_le_length src). lia. }
+  rewrite Hb. pose proof (inv_closed _ _ _ _ _ HI HE) as Hcl.
+  unfold nthb. rewrite (nth_map_lt (fun x => (0 <=? x)%Z) dist v 0%Z false) by (rewrite (inv_ld _ _ _ _ _ HI); exact Hv).
+  fold (nthz dist v). destruct (nthb rch v) eqn:E.
+  - destruct (inv_dist_t _ _ _ _ _ HI v Hv E) as [k [Hd [Hr _]]]. split.
+    + intros _. exists k. exact Hr.
+    + intros _. apply Z.leb_le. lia.
+  - rewrite (inv_dist_f _ _ _ _ _ HI v Hv E). split; [discriminate|].
+    intros [k Hr]. rewrite (Hcl k v Hr Hv) in E. discriminate.
+Qed.
+
+Lemma reach_step_right (E : nat -> nat -> Prop) u x v : reach E u x -> E x v -> reach E u v.
+Proof. intros H1 H2. eapply reach_trans; [exact H1 | apply reach_one; exact H2]. Qed.
+
+Lemma reachk_reach g src : forall k v, reachk g src k v -> exists s, nthb src s = true /\ reach (edge g) s v.
+Proof.
+  induction k as [|k IH]; intros v H; simpl in H.
+  - exists v. split; auto. apply reach_refl.
+  - destruct H as [u [Hu Huv]]. destruct (IH u Hu) as [s [Hs Hr]]. exists s. split; auto.
+    eapply reach_step_right; eauto.
+Qed.
+
+Lemma reach_reachk g src u v : reach (edge g) u v -> (exists k, reachk g src k u) -> exists k, reachk g src k v.
+Proof.
+  intros H. induction H as [u|u x v Hux Hxv IH]; auto.
+  intros [k Hk]. apply IH. exists (S k). simpl. exists u. split; auto.
+Qed.
+
+Lemma reach_from_iff g srcs v : v < length g ->
+  (nthb (reach_from g srcs) v = true <-> exists s, In s srcs /\ s < length g /\ reach (edge g) s v).
+Proof.
+  intros Hv. rewrite (reach_from_spec g srcs v Hv). split.
+  - intros [k Hk]. destruct (reachk_reach g _ k v Hk) as [s [Hs Hr]]. exists s.
+    destruct (Nat.lt_ge_cases s (length g)) as [Hlt|Hge].
+    + rewrite nthb_one_hot in Hs by exact Hlt. apply memn_In in Hs. auto.
+    + unfold nthb in Hs. rewrite nth_overflow in Hs by (rewrite one_hot_length; exact Hge). discriminate.
+  - intros [s [Hin [Hs Hr]]]. apply (reach_reachk g _ s v Hr). exists 0. simpl.
+    rewrite nthb_one_hot by exact Hs. apply memn_In. exact Hin.
+Qed.
+
+Lemma reach_lt g u v : wf_graph g -> u < length g -> reach (edge g) u v -> v < length g.
+Proof.
+  intros Hwf Hu H. induction H as [u|u x v Hux Hxv IH]; auto. apply IH. eapply Hwf; eauto.
+Qed.
+
+Lemma acyclic_dir_b_sound h : acyclic_dir_b h = true -> ~ exists c, dcycle h c.
+Proof.
+  unfold acyclic_dir_b. rewrite forallb_forall. intros H [c Hcy]. pose proof Hcy as [Hne [Hnd Hch]].
+  destruct c as [|u t]; [congruence|].
+  assert (Hedge : exists y, In y (row h u) /\ reach (edge h) y u).
+  { destruct t as [|y t'].
+    - exists u. simpl in Hch. split; [tauto | apply reach_refl].
+    - exists y. split; [simpl in Hch; tauto|].
+      destruct (simple_cycle_hd_reach (edge h) (u :: y :: t') y Hcy (or_intror (or_introl eq_refl))) as [_ R].
+      exact R. }
+  destruct Hedge as [y [Hy Hr]].
+  assert (Hu : u < length h) by (eapply row_nonempty_lt; eauto).
+  specialize (H u (proj2 (nodes_In h u) Hu)). apply negb_true_iff in H.
+  rewrite existsb_false in H. specialize (H y Hy).
+  assert (Ht : nthb (reach_from h [y]) u = true); [|congruence].
+  apply reach_from_iff; auto. exists y. split; [left; reflexivity|]. split; auto.
+  (* y < length h: it has an outgoing walk to u unless y = u *)
+  inversion Hr as [|? x ? Hyx _]; subst; auto. eapply row_nonempty_lt; eauto.
+Qed.
+
+Lemma subgraph_b_sound h g : subgraph_b h g = true ->
+  length h = length g /\ forall u v, In v (row h u) -> In v (row g u).
+Proof.
+  unfold subgraph_b. intros H. apply andb_true_iff in H. destruct H as [H1 H2].
+  apply Nat.eqb_eq in H1. split; auto. rewrite forallb_forall in H2. intros u v Hv.
+  assert (Hu : u < length h) by (eapply row_nonempty_lt; eauto).
+  specialize (H2 u (proj2 (nodes_In h u) Hu)). rewrite forallb_forall in H2.
+  apply edgeb_true. apply H2. exact Hv.
+Qed.
+
+Lemma keeps_reach_b_sound g h root : wf_graph g -> length h = length g ->
+  keeps_reach_b g h root = true ->
+  forall r v, In r root -> r < length g -> reach (edge g) r v ->
+    exists r', In r' root /\ reach (edge h) r' v.
+Proof.
+  intros Hwf Hlen H r v Hr Hrl Hrv. unfold keeps_reach_b in H. cbv zeta in H. rewrite forallb_forall in H.
+  assert (Hv : v < length g) by (eapply reach_lt; eauto).
+  specialize (H v (proj2 (nodes_In g v) Hv)).
+  assert (Ha : nthb (reach_from g root) v = true) by (apply reach_from_iff; auto; exists r; auto).
+  rewrite Ha in H. simpl in H. apply reach_from_iff in H; [|lia].
+  destruct H as [s [Hs [_ Hsv]]]. exists s. auto.
+Qed.
+
+(** What [bc_post g root true h = true] means. *)
+Theorem bc_post_directed_sound g root h : wf_graph g -> bc_post g root true h = true ->
+  length h = length g /\
+  (forall u v, edge h u v -> edge g u v) /\
+  (~ exists c, dcycle h c) /\
+  (forall r v, In r root -> r < length g -> reach (edge g) r v -> exists r', In r' root /\ reach (edge h) r' v).
+Proof.
+  intros Hwf H. unfold bc_post in H. cbn [orb acyclic_b] in H. rewrite andb_true_r in H.
+  apply andb_true_iff in H. destruct H as [H H3]. apply andb_true_iff in H. destruct H as [H1 H2].
+  destruct (subgraph_b_sound h g H1) as [Hlen Hsub]. split; auto. split; [exact Hsub|].
+  split; [apply acyclic_dir_b_sound; exact H2|]. apply keeps_reach_b_sound; auto.
+Qed.
+
+Definition wf_b (g : graph) : bool := forallb (fun r => forallb (fun v => v <? length g) r) g.
+Lemma wf_b_sound g : wf_b g = true -> wf_graph g.
+Proof.
+  unfold wf_b. rewrite forallb_forall. intros H u v Hv.
+  assert (Hu : u < length g) by (eapply row_nonempty_lt; eauto).
+  specialize (H (row g u) (nth_In g [] Hu)). rewrite forallb_forall in H. apply Nat.ltb_lt. apply H. exact Hv.
+Qed.
+Lemma small_digraphs_wf : forallb wf_b small_digraphs = true.
+Proof. vm_cast_no_check (eq_refl true). Qed.
+
+(** The bounded theorem in propositional form. *)
+Theorem break_cycles_ok_upto_4_prop_lemma (vo : bool) (g : graph) (root : list nat) (directed : option bool) :
+  In g small_digraphs -> In root (nonempty_sublists (nodes g)) -> 0 < out_degree g root ->
+  directed = Some true \/ (directed = None /\ is_symmetric g = false) ->
+  exists h, bc_run vo directed true g root = Ok h /\
+    length h = length g /\
+    (forall u v, edge h u v -> edge g u v) /\
+    (~ exists c, dcycle h c) /\
+    (forall r v, In r root -> r < length g -> reach (edge g) r v -> exists r', In r' root /\ reach (edge h) r' v).
+Proof.
+  intros Hg Hr Hd Hf. destruct (break_cycles_ok_upto_4_lemma vo g root directed Hg Hr Hd Hf) as [h [H1 H2]].
+  exists h. split; auto. apply bc_post_directed_sound; auto.
+  apply wf_b_sound. exact (proj1 (forallb_forall wf_b small_digraphs) small_digraphs_wf g Hg).
 Qed.
